@@ -26,7 +26,7 @@ MAXN = 0x7FFFFFFF
 
 
 def plan(tier, seed):
-    return [('requester', 900 if tier == 'quick' else 30000), ('responder', 200 if tier == 'quick' else 6000)]
+    return [('requester', 6000 if tier == 'quick' else 60000), ('responder', 1000 if tier == 'quick' else 10000)]
 
 
 def _iid_of(f):
@@ -81,6 +81,16 @@ async def _requester(rng, desc):
     return world, t0
 
 
+def _us(t):
+    """The library reads the (virtual) clock through datetime, i.e. rounded to microseconds; the model must compare
+    in the same unit or the expiry instant itself becomes a floating point coin toss."""
+    return int(round(t * 1e6))
+
+
+def _valid(lease, t):
+    return _us(t) < _us(lease['t']) + int(round(lease['ttl'] * 1e6))
+
+
 def reference_model(events, queue_size):
     """Replays the observed order of LEASE receptions and API calls; returns the expected admissions
     [(iid, lease index)] in order, the set of iids expected to be refused (queue full) and those retained."""
@@ -94,12 +104,12 @@ def reference_model(events, queue_size):
         if e['kind'] == 'wire' and e['dir'] == 'recv' and e['f'].get('type') == 'LEASE':
             nlease += 1
             lease = {'t': e['t'], 'n': e['f']['requests'], 'ttl': e['f']['ttl_ms'] / 1000.0, 'used': 0, 'idx': nlease}
-            while queue and e['t'] < lease['t'] + lease['ttl'] and lease['used'] < lease['n']:
+            while queue and _valid(lease, e['t']) and lease['used'] < lease['n']:
                 lease['used'] += 1
                 admitted.append((queue.pop(0), nlease))
         elif e['kind'] == 'call':
             t = e['t']
-            if lease is not None and t < lease['t'] + lease['ttl'] and lease['used'] < lease['n']:
+            if lease is not None and _valid(lease, t) and lease['used'] < lease['n']:
                 lease['used'] += 1
                 admitted.append((e['iid'], lease['idx']))
             elif queue_size and len(queue) >= queue_size:
@@ -137,7 +147,7 @@ def check_requester(world, desc):
             if lease is None:
                 bad('request-before-first-lease', iid=iid)
                 continue
-            if e['t'] >= lease['t'] + lease['ttl']:
+            if not _valid(lease, e['t']):
                 bad('request-after-lease-expired', iid=iid, lease_received_at=lease['t'], ttl=lease['ttl'], sent_at=e['t'])
             lease['used'] += 1
             if lease['used'] > lease['n']:
